@@ -146,16 +146,80 @@ def other_recipes():
     return R
 
 
-def all_recipes(tier):
+def _derived(group, fam, opts, fn):
+    """Derived recipes of a base recipe: .adjoint, .adjoint.adjoint, .inverse, .derivative(x) where the operator offers them."""
+    def mk(kind):
+        def build():
+            op = fn()
+            if kind == 'adjoint':
+                if not op.is_linear:
+                    raise NotImplementedError('nonlinear')
+                return op.adjoint
+            if kind == 'adjoint.adjoint':
+                if not op.is_linear:
+                    raise NotImplementedError('nonlinear')
+                return op.adjoint.adjoint
+            if kind == 'inverse':
+                return op.inverse
+            if kind == 'derivative':
+                if op.is_linear:
+                    raise NotImplementedError('linear')
+                rng = np.random.default_rng(3)
+                return op.derivative(random_point(op.domain, rng))
+            raise ValueError(kind)
+        return build
     out = []
+    for kind in ('adjoint', 'adjoint.adjoint', 'inverse', 'derivative'):
+        if 'derived' in opts and kind != 'adjoint':
+            continue
+        o = dict(opts)
+        o['via'] = kind
+        out.append((group, fam, o, mk(kind)))
+    return out
+
+
+def extra_block_recipes():
+    R = []
+    r2 = odl.rn(2)
+    A = odl.MatrixOperator(np.array([[1.0, 2.0], [0.0, -1.0]]))
+    B = odl.ScalingOperator(r2, 2.0)
+    Cc = odl.MultiplyOperator(r2.element([1.0, -2.0]))
+    D = odl.IdentityOperator(r2)
+    R.append(('ProductSpaceOperator', {'blocks': 'full-2x2'}, lambda: odl.ProductSpaceOperator([[A, B], [Cc, D]])))
+    import scipy.sparse
+
+    def colmajor():
+        ops = np.empty(4, dtype=object)
+        ops[:] = [A, Cc, B, D]
+        m = scipy.sparse.coo_matrix((ops, ([0, 1, 0, 1], [0, 0, 1, 1])), shape=(2, 2))
+        return odl.ProductSpaceOperator(m, domain=odl.ProductSpace(r2, 2), range=odl.ProductSpace(r2, 2))
+    R.append(('ProductSpaceOperator', {'blocks': 'coo-column-major'}, colmajor))
+    R.append(('ProductSpaceOperator', {'blocks': 'nonlinear-2x2'},
+              lambda: odl.ProductSpaceOperator([[odl.PowerOperator(r2, 2), B], [Cc, odl.PowerOperator(r2, 3)]])))
+    c2 = odl.uniform_discr([-1, -1], [1, 1], [4, 4], dtype='complex64')
+    g = odl.tomo.parallel_beam_geometry(odl.uniform_discr([-1, -1], [1, 1], [4, 4]), num_angles=3)
+    R.append(('RayTransform', {'impl': 'skimage', 'dtype': 'complex'}, lambda: odl.tomo.RayTransform(c2, g, impl='skimage')))
+    R.append(('RayBackProjection', {'impl': 'skimage', 'dtype': 'complex'}, lambda: odl.tomo.RayTransform(c2, g, impl='skimage').adjoint))
+    return R
+
+
+def all_recipes(tier):
+    base = []
     for fam, opts, fn in L.recipes(tier):
-        out.append(('lin', fam, opts, fn))
+        base.append(('lin', fam, opts, fn))
     for fam, opts, fn in NL.recipes(tier):
-        out.append(('nl', fam, opts, lambda fn=fn: fn()[0]))
+        base.append(('nl', fam, opts, lambda fn=fn: fn()[0]))
     for fam, opts, fn in functional_recipes():
-        out.append(('fn', fam, opts, fn))
+        base.append(('fn', fam, opts, fn))
     for fam, opts, fn in other_recipes():
-        out.append(('misc', fam, opts, fn))
+        base.append(('misc', fam, opts, fn))
+    for fam, opts, fn in extra_block_recipes():
+        base.append(('misc', fam, opts, fn))
+    out = list(base)
+    for group, fam, opts, fn in base:
+        if group == 'fn' or fam.startswith('ufunc_ops.'):
+            continue
+        out.extend(_derived(group, fam, opts, fn))
     return out
 
 
